@@ -35,6 +35,9 @@ type c18Case struct {
 	Codes    []int   // glyph ids fed to the subsetter
 	Vert     bool    `json:",omitempty"` // the text is drawn a second time in vertical writing mode with the same font
 	Upright  bool    `json:",omitempty"` // ... with upright glyphs (vertical advances) rather than rotated ones
+	// Inter: after the text, a second text in another font (or the same font at Inter[1] pt when Inter[0]
+	// names the same font) and then the first face again: font selections A, B, A on one page
+	Inter []float64 `json:",omitempty"`
 	Kind     string
 }
 
@@ -83,6 +86,21 @@ func genC18(kind string) func(r *core.Rng) any {
 			// Greek is missing from the two CFF fonts; mixed-script text with missing glyphs is pinned by
 			// finding F-C18-textwidth-script-runs
 			c.Text = strings.ReplaceAll(c.Text, "ΑΒΓ αβγ", "abc ABC")
+		}
+		if kind == "interleaved" {
+			c.Font = r.Intn(3)
+			if c.Font != 0 {
+				c.Subset = true
+			}
+			other := r.Intn(3)
+			if other != 0 {
+				c.Subset = true // full embedding of a CFF font is F-C18-cff-full-embedding
+			}
+			c.Inter = []float64{float64(other), core.PickF(r, []float64{8, 14, 20, c.Size})}
+			if other == c.Font && c.Inter[1] == c.Size {
+				c.Inter[1] = c.Size + 3
+			}
+			c.Box = 0
 		}
 		if kind == "astral" {
 			// characters beyond the Basic Multilingual Plane (mathematical alphanumerics in DejaVu Serif,
@@ -492,6 +510,19 @@ func c18Check(ci any, o *core.Obs) {
 		rt.WriteString(c.Text)
 		tv = rt.ToText(0, 200, canvas.Left, canvas.Top, 0, 0)
 	}
+	var extra []*canvas.Text
+	var extraFaces []*canvas.FontFace
+	if len(c.Inter) == 2 {
+		if fb := c13Fonts[int(c.Inter[0])]; fb != nil {
+			faceB := fb.Face(c.Inter[1], canvas.Black, canvas.FontRegular, canvas.FontNormal)
+			tb := "Between fonts 123"
+			if int(c.Inter[0]) == 0 {
+				tb = "Between αβγ 123"
+			}
+			extra = append(extra, canvas.NewTextLine(faceB, tb, canvas.Left), canvas.NewTextLine(face, "again "+strings.TrimSpace(strings.SplitN(c.Text, "\n", 2)[0]), canvas.Left))
+			extraFaces = append(extraFaces, faceB, face)
+		}
+	}
 	var buf bytes.Buffer
 	if !o.Call("pdf renderer", func() {
 		r := pdf.New(&buf, 210, 297, &pdf.Options{Compress: c.Compress, SubsetFonts: c.Subset})
@@ -499,6 +530,9 @@ func c18Check(ci any, o *core.Obs) {
 		ctx.DrawText(x0, y0, t)
 		if tv != nil {
 			ctx.DrawText(150, y0, tv)
+		}
+		for i, e := range extra {
+			ctx.DrawText(x0, y0-40-30*float64(i), e)
 		}
 		r.Close()
 	}) {
@@ -515,6 +549,8 @@ func c18Check(ci any, o *core.Obs) {
 		adv  int32
 	}
 	var vertical, second []bool
+	var srcs []*font.SFNT // source font of every expected glyph
+	var sizes []float64   // face size of every expected glyph as FontFace.Size has it (millimetres)
 	t.WalkSpans(func(x, y float64, s canvas.TextSpan) {
 		pen := 0.0
 		for _, g := range s.Glyphs {
@@ -529,6 +565,7 @@ func c18Check(ci any, o *core.Obs) {
 			}
 			vertical = append(vertical, false)
 			second = append(second, false)
+			srcs, sizes = append(srcs, src), append(sizes, face.Size)
 			pen += k * float64(g.XAdvance)
 		}
 	})
@@ -543,6 +580,23 @@ func c18Check(ci any, o *core.Obs) {
 				}{g.ID, g.Text, 0, 0, g.XAdvance})
 				vertical = append(vertical, g.Vertical)
 				second = append(second, true)
+				srcs, sizes = append(srcs, src), append(sizes, face.Size)
+			}
+		})
+	}
+	for i, e := range extra {
+		fc := extraFaces[i]
+		e.WalkSpans(func(x, y float64, s canvas.TextSpan) {
+			for _, g := range s.Glyphs {
+				want = append(want, struct {
+					id   uint16
+					r    rune
+					x, y float64
+					adv  int32
+				}{g.ID, g.Text, 0, 0, g.XAdvance})
+				vertical = append(vertical, false)
+				second = append(second, true)
+				srcs, sizes = append(srcs, fc.Font.SFNT), append(sizes, fc.Size)
 			}
 		})
 	}
@@ -637,10 +691,16 @@ func c18Check(ci any, o *core.Obs) {
 		return
 	}
 	o.Count("glyphs_compared", float64(len(shown)))
-	upem := float64(src.Head.UnitsPerEm)
 	for i, sh := range shown {
 		w := want[i]
+		src := srcs[i]
+		upem := float64(src.Head.UnitsPerEm)
 		o.Decided(1)
+		// the writer works in millimetres: Tf carries the face size in mm (the page matrix scales mm to pt)
+		if math.Abs(sh.size-sizes[i]) > 1e-5*(1+sizes[i]) {
+			fail("font-size", "glyph %d (%q) is shown with Tf size %.6g, its face has size %.6g (mm)", i, string(w.r), sh.size, sizes[i])
+			return
+		}
 		wantEnc := "Identity-H"
 		if vertical[i] {
 			wantEnc = "Identity-V"
@@ -741,6 +801,7 @@ func init() {
 			{Name: "texts", Quick: 600, Thorough: 20000, Gen: genC18("texts")},
 			{Name: "justified", Quick: 300, Thorough: 8000, Gen: genC18("justified")},
 			{Name: "vertical", Quick: 200, Thorough: 4000, Gen: genC18("vertical"), Note: "the same font used for horizontal text and for rotated text of a vertical writing mode in one document"},
+			{Name: "interleaved", Quick: 300, Thorough: 6000, Gen: genC18("interleaved"), Note: "font selections A, B, A on one page (another font, or the same font at another size, between two texts of one face)"},
 			{Name: "many-glyphs", Quick: 60, Thorough: 800, Gen: genC18("many-glyphs"), Note: "200-420 distinct glyphs of one font in one document (character codes beyond 0x00FF)"},
 			{Name: "astral", Quick: 200, Thorough: 3000, Gen: genC18("astral"), Note: "characters beyond U+FFFF: ToUnicode entries are surrogate pairs"},
 			{Name: "marks", Quick: 200, Thorough: 3000, Gen: genC18("marks"), Note: "combining marks positioned by glyph offsets (GPOS mark-to-base)"},
